@@ -548,11 +548,137 @@ def container_render_order(ctx: Ctx, rep: Report, rid: str = "R06.6") -> None:
     rep.floor(3, "container renderers")
 
 
+def _len_bounded_names(ctx: Ctx, g: Func) -> Set[str]:
+    """Names of str-typed locals/parameters of g whose length has an upper bound enforced by a raise."""
+    cfg = ctx.cfg(g)
+    lens: Dict[str, str] = {}  # local bound to len(<name>) -> name
+    for n in own_nodes(g.node):
+        if isinstance(n, ast.Assign) and isinstance(n.targets[0], ast.Name) and isinstance(n.value, ast.Call) and src(n.value.func) == "len" and n.value.args and isinstance(n.value.args[0], ast.Name):
+            lens[n.targets[0].id] = n.value.args[0].id
+    out: Set[str] = set()
+    raises = [n for n in cfg.live if n.kind == "stmt" and isinstance(n.ast, ast.Raise)]
+    for r in raises:
+        for c, lab in cfg.transitive_control_deps(r):
+            t = c.ast
+            if c.kind != "cond" or not isinstance(t, ast.Compare) or len(t.ops) != 1:
+                continue
+            sides = [(t.left, t.ops[0], t.comparators[0]), (t.comparators[0], {ast.Gt: ast.Lt(), ast.GtE: ast.LtE(), ast.Lt: ast.Gt(), ast.LtE: ast.GtE()}.get(type(t.ops[0]), t.ops[0]), t.left)]
+            for a, op, b in sides:
+                nm = None
+                if isinstance(a, ast.Call) and src(a.func) == "len" and a.args and isinstance(a.args[0], ast.Name):
+                    nm = a.args[0].id
+                elif isinstance(a, ast.Name) and a.id in lens:
+                    nm = lens[a.id]
+                if nm is None:
+                    continue
+                upper = (isinstance(op, (ast.Gt, ast.GtE)) and lab == "T") or (isinstance(op, (ast.Lt, ast.LtE)) and lab == "F")
+                if not upper:
+                    continue
+                ty = ctx.types.expr_type(ast.Name(id=nm, ctx=ast.Load()), g)
+                if ty == ("str",):
+                    out.add(nm)
+    return out
+
+
+def length_gates(ctx: Ctx, rep: Report, rid: str = "R06.9") -> None:
+    """A reader may bound the length of a text only when that text is kept and rendered as it is (a name).  A bound on
+    a whole line is a bound the writer does not have: numbers are rendered as names, so the rendered line can be longer
+    than the accepted one and is then refused."""
+    from .common import single_env
+
+    rep.rule(rid)
+    gates: Dict[int, Tuple[Func, Set[str]]] = {}
+    for g in ctx.prog.funcs:
+        b = _len_bounded_names(ctx, g)
+        if b:
+            gates[id(g)] = (g, b)
+
+    def origin_param(g: Func, name: str) -> Optional[str]:
+        """The parameter a bounded name is (a normalised copy of)."""
+        seen = set()
+        while name not in g.params and name not in seen:
+            seen.add(name)
+            defs = [n.value for n in own_nodes(g.node) if isinstance(n, ast.Assign) and isinstance(n.targets[0], ast.Name) and n.targets[0].id == name]
+            nxt = None
+            for d in defs:
+                if isinstance(d, ast.Call) and isinstance(d.func, ast.Attribute) and isinstance(d.func.value, ast.Name) and d.func.attr in ("strip", "lstrip", "rstrip", "lower"):
+                    nxt = d.func.value.id
+                elif isinstance(d, ast.Call) and len(d.args) == 1 and isinstance(d.args[0], ast.Name) and not d.keywords:
+                    nxt = d.args[0].id
+            if nxt is None:
+                return None
+            name = nxt
+        return name if name in g.params else None
+
+    gate_params: Dict[int, Tuple[Func, Set[str]]] = {}
+    for g, names in gates.values():
+        ps = {origin_param(g, nm) for nm in names} - {None}
+        if ps:
+            gate_params[id(g)] = (g, ps)  # type: ignore[assignment]
+    sites: List[Tuple[Func, ast.AST, str]] = []  # (function, node, bounded local) where a bound meets an object's text
+    for g, names in gates.values():
+        for nm in names:
+            if origin_param(g, nm) is None or g.cls is not None:
+                sites.append((g, g.node, nm))
+    changed = True
+    visited: Set[Tuple[int, int]] = set()
+    while changed:
+        changed = False
+        for f in ctx.prog.funcs:
+            for e in ctx.cg.all_edges(f):
+                if e.kind != "call" or e.weak or not isinstance(e.site, ast.Call) or id(e.target) not in gate_params or (id(f), id(e.site)) in visited:
+                    continue
+                visited.add((id(f), id(e.site)))
+                g, ps = gate_params[id(e.target)]
+                from .common import bind_call
+
+                b = bind_call(g, e.site, bound=g.cls is not None and g.kind != "staticmethod")
+                if not b:
+                    continue
+                for p_ in ps:
+                    a = b.get(p_)
+                    if not isinstance(a, ast.Name):
+                        if a is not None:
+                            sites.append((f, e.site, src(a)))
+                        continue
+                    op = origin_param(f, a.id)
+                    if op is not None and f.cls is None:
+                        cur = gate_params.setdefault(id(f), (f, set()))
+                        if op not in cur[1]:
+                            cur[1].add(op)
+                            changed = True
+                    else:
+                        sites.append((f, e.site, a.id))
+    rep.instance(len(sites))
+    if not gates:
+        rep.note(f"{rid} no reader bounds the length of a text")
+        return
+    for f, node, nm in sites:
+        # the bounded text is what the object keeps as its name
+        ok = False
+        why = ""
+        for n in own_nodes(f.node):
+            if isinstance(n, ast.Assign) and any(isinstance(t, ast.Attribute) and src(t.value) == "self" and t.attr == "_name" for t in n.targets):
+                v = n.value
+                if (isinstance(v, ast.Name) and v.id == nm) or v is node or (isinstance(node, ast.Call) and isinstance(getattr(node, "_parent", None), ast.NamedExpr) and isinstance(v, ast.Name) and v.id == getattr(node, "_parent").target.id):
+                    ok = True
+                    why = f"the bounded text `{nm}` is stored as self._name and rendered as it is"
+        if ok:
+            rep.ok(f"{f.qualname}: length bound on `{nm}`", why, where=where(f, node))
+        else:
+            rep.violation(f.qualname, f"length bound on `{nm}` ({snippet(node, 50) if not isinstance(node, ast.FunctionDef) else 'own test'})", "the reader refuses a text by its length, the writer has no such bound: a line accepted with numbers can be rendered longer with names, and the rendered line is refused", where(f, node), inp="an ACE with long port lists, accepted with numbers, rendered with names")
+    rep.note(f"{rid} {len(gates)} functions bound the length of a text; {len(sites)} places where the bound meets an object's text")
+
+
 def run(ctx: Ctx, rep: Report, tier: str) -> None:
     from . import c01
     from .c08 import validated_is_returned
 
     container_render_order(ctx, rep)
+    length_gates(ctx, rep)
+    # R06.10 the kind an address is given ("any", "host", ...) decides what is rendered for it: the kind tests must
+    # single out exactly the network the keyword stands for, or the rendered keyword re-parses to another network
+    c01.classification_guards(ctx, rep, rid="R06.10")
     # R06.7 premises: what the renderer writes is in the reader's vocabulary (port names), a stored sequence number
     # is rendered (C10 R10.6)
     from .c09 import splitter_vocabulary
